@@ -118,6 +118,26 @@ def gen_form_doc(rng, iframes=True, nested_forms=True, max_nodes=30, lang=True, 
                 r.attrs['checked'] = ''
             holder.kids.append(r)
         body.kids.insert(rng.randrange(len(body.kids) + 1), holder)
+    # an iframe as the *last* child of a form / fieldset / div (nothing follows it inside its parent), holding a whole document
+    # with its own controls: what comes after the embedded document in tree order belongs to the outer one again
+    if iframes and rng.random() < .2:
+        inner = E('body', {}, [ctl() for _ in range(rng.randint(1, 3))])
+        if rng.random() < .7:
+            inner.kids.insert(rng.randrange(len(inner.kids) + 1), E(rng.choice(['button', 'input']), {'type': 'submit'}))
+        if rng.random() < .4:
+            inner.kids.append(E('input', {'type': 'radio', 'name': 'r', 'checked': ''}))
+        fr = E('iframe', {}, [E('html', {}, [inner])])
+        holder = E(rng.choice(['form', 'p', 'fieldset', 'div']), {}, [ctl() for _ in range(rng.randint(0, 2))] + [fr])
+        after = [E(rng.choice(['button', 'input']), {'type': 'submit'}), E('input', {'type': 'radio', 'name': 'r'})]
+        rng.shuffle(after)
+        after = after[:rng.randint(0, 2)]
+        if holder.name != 'form' and rng.random() < .6:
+            # what follows the wrapper is still inside the form
+            new = [E('form', {}, [holder] + after)]
+        else:
+            new = [holder] + after
+        at = rng.randrange(len(body.kids) + 1)
+        body.kids[at:at] = new
     # twins: structurally identical subtrees (bs4 tags compare equal structurally)
     if rng.random() < .3:
         els = [k for k in body.kids if isinstance(k, E)]
